@@ -20,6 +20,7 @@ the reader model `Read.readAs` of C02 / C17), index level: SaModel/Read/Access.l
                         the root reader can be built
   from_arrow_is_new     `from_arrow` / `from_record_batch` / `from_arrow2`: count check, conversions, then `Deserializer::new` —
                         every theorem above applies to what they return;  ctors_refuse_count_mismatch
+                        (both for an abstract `Backend.Core` under `hcore : core.deserializerNew = Deser.new`)
 -/
 namespace SaModel.Props.C13
 open SaModel SaModel.Access SaModel.AccessVal SaModel.Lemmas
